@@ -34,7 +34,7 @@ m = {
                  "kind_free_text": "Coq 8.16.1 development (Spec/Model/Proofs/Props/Exec + Py: deep embedding of a Python fragment, translator harness/pytrans.py) + tables regenerated from /repo + vm_compute correspondence driven by harness/run.py"}],
     "checks": checks,
     "not_applicable": na,
-    "notes": "Every check: regen gen/*.v from /repo (constants, effects, structure table, MiniPy terms of the translated functions), rebuild Props/Cxx.vo + Props/SCxx.vo (+ Props/CxxSrc.vo), audit Print Assumptions, run model-vs-implementation correspondence, the Spec-level property checker and (C04,C05,C08,C09,C10,C11,C12,C17,C19,C20) the interpreter-vs-CPython stream inside Coq. See DESIGN.md.",
+    "notes": "Every check: regen gen/*.v from /repo (constants, effects, structure table, MiniPy terms of the translated functions), rebuild Props/Cxx.vo + Props/SCxx.vo (+ Props/CxxSrc.vo), audit Print Assumptions, run model-vs-implementation correspondence, the Spec-level property checker and (C03,C04,C05,C08,C09,C10,C11,C12,C17,C19,C20) the interpreter-vs-CPython stream inside Coq. See DESIGN.md.",
 }
 json.dump(m, open(os.path.join(VERIF, "MANIFEST.json"), "w"), indent=1)
 print("claimed:", [c["property_id"] for c in checks])
